@@ -159,7 +159,7 @@ macro_rules! per_total {
             if which == 0 {
                 let r = read_length(&mut rd); forget(r);
             } else if which == 1 {
-                let r = read_integer(&mut rd); kani::cover!(r.is_ok(), "integer decodes"); forget(r);
+                let r = read_integer(&mut rd); kani::cover!(N < 2 || r.is_ok(), "integer decodes"); forget(r);
             } else if which == 2 {
                 let m: u16 = kani::any();
                 let r = read_integer_16(m, &mut rd); forget(r);
